@@ -20,7 +20,10 @@ RULE = ('all DAG shapes over {Config kw, Config positional, list, tuple, dict, '
         'defaultdict, namedtuple, Tmp (flatten creates temporaries), empty '
         'containers} with leaves {str, a shared constant tuple} up to N nodes, '
         'plus each shape with one back edge closed through a list or dict '
-        '(cycle); non-trivial = has sharing or a cycle')
+        '(cycle), traversed also with a callback that swallows failing '
+        'children; kinds include a defaultdict with unsorted insertion order '
+        'and a class derived from a named tuple; non-trivial = has sharing or '
+        'a cycle')
 ASSUMPTIONS = [
     'memoized traversal is judged on mutable objects (Buildable, list, dict, '
     'Tmp): each exactly once; tuples/leaves only for soundness',
